@@ -140,6 +140,13 @@ RULES = [
     (r"exec::val::Val::to_string_for_output::panic::unreachable! .*#0", "decay() never returns an array (Array -> Number)", "decay-no-array"),
     (r"exec::val::Val::multiply::extern::repeat_n#0",
      "the count drives time and memory proportional to the result; outside the property's resource budget when huge (not a panic for budgeted programs)", None),
+    (r"exec::val::Array::index_arr_or_insert::assert::overflow_sub\(branch\(\),len\(\)\)#0",
+     "new_len - len under `i >= len` with new_len = i + 1 (checked_add succeeded): the difference is >= 1", "reserve-diff-nonneg"),
+    (r"exec::val::Array::index_arr_or_insert::extern::resize_with#0",
+     "the extension was reserved with try_reserve and its failure returned None (reported as InvalidKey): resize_with does not allocate beyond what was reserved", "resize-after-try-reserve"),
+    (r"exec::val::Val::cast::extern::from_str_radix#0",
+     "the radix went through Option::filter(|r| (2..=36).contains(r)) and `?`", "radix-range-checked"),
+    (r"linter::passes::boring_assignment::PoeticNumberLiteralTemplate::from_value::\{closure#0\}::extern::to_digit#0", "to_digit(10): constant radix", "to-digit-radix-const"),
     # ---------------- linter
     (r"<linter::ListBuilder<T> as analysis::visit::Combine>::combine::unsafe::unreachable_unchecked#[01]",
      "both early returns on is_empty() precede the matches, so neither operand is Empty", "listbuilder-nonempty"),
